@@ -1,4 +1,4 @@
-import TxV.Core.Example
+import TxV.Core.Example2
 /-!
 # C08 — conflict priorities are respected
 
@@ -16,7 +16,7 @@ namespace TxV.Core
 
 variable {D : Design} {v : Val} {S : Sched} {run : Nat → Bool}
 
--- OBLIGATION c08_left : add_conflict(a, b, LEFT), under driver-checked hypotheses Accepted, Eager, ExclReady, ValidOrder (validOrderB on the implementation's porder): for every accepted design with a valid order, every solution of the eager equations: if ta (of a) and tb (of b) are both fully enabled and tb runs, then ta does not run and a transaction other than tb that conflicts with ta runs
+-- OBLIGATION c08_left : add_conflict(a, b, LEFT), under hypothesis Accepted (proved from the executable elaborate: Bridge.elaborate_static) and driver-checked per-cycle hypotheses Eager, ExclReady, ValidOrder (proved by Bridge.elaborate_static from the executable order check on the implementation's porder): for every accepted design with a valid order, every solution of the eager equations: if ta (of a) and tb (of b) are both fully enabled and tb runs, then ta does not run and a transaction other than tb that conflicts with ta runs
 theorem c08_left (hA : Accepted D S) (he : Eager D v S run) (hr : ExclReady D v) (ho : ValidOrder D S)
     {a b ta tb : Nat} (hrel : ConflictRelPrio D a b .left) (hta : TransFor D ta a) (htb : TransFor D tb b)
     (hne : ta ≠ tb) (ea : FullyEnabled D v run ta) (eb : FullyEnabled D v run tb) (hrun : run tb = true) :
@@ -49,7 +49,8 @@ example : acceptedB Ex.D Ex.S = true ∧ eagerB Ex.D Ex.v Ex.S Ex.run = true ∧
     decide (ExclReady Ex.D Ex.v) = true ∧
     Ex.v.ready 1 = true ∧ runnableB Ex.D Ex.v Ex.run 1 = true ∧
     Ex.v.ready 2 = true ∧ runnableB Ex.D Ex.v Ex.run 2 = true ∧
-    Ex.run 2 = true ∧ Ex.run 1 = false ∧ Ex.run 0 = true ∧ Ex.S.cgr 1 0 = true := by decide
+    Ex.run 2 = true ∧ Ex.run 1 = false ∧ Ex.run 0 = true ∧ Ex.S.cgr 1 0 = true :=
+  ⟨Ex.accepted, Ex.eager, Ex.validOrder, Ex.exclReady, rfl, Ex.runnable1, rfl, Ex.runnable2, rfl, rfl, rfl, by decide⟩
 example : ConflictRelPrio Ex.D 1 2 .left :=
   ⟨by decide, by decide, ⟨2, .left, true, false⟩, by decide, rfl, rfl, rfl⟩
 
